@@ -1057,3 +1057,368 @@ Proof. vm_compute. intuition. Qed.
 Lemma object_subset_sizes_nonvacuous :
   object_subset_sizes 1 3 false = [(OOneOptional, 2%nat); (OOneOptional, 2%nat); (OOneOptional, 2%nat); (OSubset, 3%nat); (OOnlyRequired, 1%nat)].
 Proof. reflexivity. Qed.
+
+(* ====================================================================== *)
+(* Part 5: the subschemas of the parameter combination blocks              *)
+(* ====================================================================== *)
+
+Lemma loc_eqb_eq a b : loc_eqb a b = true -> a = b.
+Proof. destruct a, b; cbn; congruence. Qed.
+Lemma loc_eqb_refl a : loc_eqb a a = true.
+Proof. destruct a; reflexivity. Qed.
+
+Lemma dedup_in x l : In x (dedup l) -> In x l.
+Proof.
+  induction l as [|y r IH]; cbn [dedup]; [tauto|].
+  destruct (mem_name y r) eqn:E; intros H.
+  - right. auto.
+  - destruct H as [H|H]; [left; exact H|right; auto].
+Qed.
+
+Lemma prop_set_in {S} (name : N) (s : S) ps n s' :
+  In (n, s') (prop_set name s ps) -> (n = name /\ s' = s) \/ In (n, s') ps.
+Proof.
+  induction ps as [|[n0 s0] r IH]; cbn [prop_set]; intros H.
+  - destruct H as [H|[]]. inversion H. left. split; reflexivity.
+  - destruct (N.eqb n0 name) eqn:E.
+    + apply N.eqb_eq in E. subst n0. destruct H as [H|H].
+      * inversion H. left. split; reflexivity.
+      * right. right. exact H.
+    + destruct H as [H|H].
+      * right. left. exact H.
+      * destruct (IH H) as [H'|H']; [left; exact H'|right; right; exact H'].
+Qed.
+
+(* CacheNone: the cache is never consulted nor written *)
+Lemma schema_through_none {S} (c : list (ckey * S)) p : schema_through CacheNone c p = (dp_schema p, c).
+Proof. reflexivity. Qed.
+
+Lemma combination_props_none_cache {S} (pset : list (dparam S)) comb acc c :
+  snd (combination_props CacheNone pset comb acc c) = c.
+Proof.
+  revert acc. induction pset as [|p r IH]; intros acc; cbn [combination_props]; [reflexivity|].
+  destruct (mem_name (dp_name p) comb); [rewrite schema_through_none; cbn [fst snd]|]; apply IH.
+Qed.
+
+Lemma combination_props_none_irrelevant {S} (pset : list (dparam S)) comb acc c1 c2 :
+  fst (combination_props CacheNone pset comb acc c1) = fst (combination_props CacheNone pset comb acc c2).
+Proof.
+  revert acc. induction pset as [|p r IH]; intros acc; cbn [combination_props]; [reflexivity|].
+  destruct (mem_name (dp_name p) comb); [rewrite !schema_through_none; cbn [fst snd]|]; apply IH.
+Qed.
+
+Lemma combination_props_none_in {S} (pset : list (dparam S)) comb acc c n s :
+  In (n, s) (fst (combination_props CacheNone pset comb acc c)) ->
+  In (n, s) acc \/ exists p, In p pset /\ dp_name p = n /\ dp_schema p = s.
+Proof.
+  revert acc. induction pset as [|p r IH]; intros acc; cbn [combination_props].
+  - cbn [fst]. tauto.
+  - destruct (mem_name (dp_name p) comb).
+    + rewrite schema_through_none. cbn [fst snd]. intros H. destruct (IH _ H) as [H'|(q & Hq & Hn & Hs)].
+      * destruct (prop_set_in _ _ _ _ _ H') as [[Hn Hs]|H''].
+        -- right. exists p. split; [left; reflexivity|]. split; congruence.
+        -- left. exact H''.
+      * right. exists q. split; [right; exact Hq|]. split; assumption.
+    + intros H. destruct (IH _ H) as [H'|(q & Hq & Hn & Hs)]; [left; exact H'|].
+      right. exists q. split; [right; exact Hq|]. split; assumption.
+Qed.
+
+Lemma optional_subschemas_none_cache {S} pos neg l (pset : list (dparam S)) base required opts c :
+  snd (optional_subschemas CacheNone pos neg l pset base required opts c) = c.
+Proof.
+  induction opts as [|o r IH]; cbn [optional_subschemas]; [reflexivity|].
+  destruct (negb _ && pos && neg); cbn [snd].
+  - rewrite combination_props_none_cache. exact IH.
+  - exact IH.
+Qed.
+
+Lemma optional_subschemas_none_irrelevant {S} pos neg l (pset : list (dparam S)) base required opts c1 c2 :
+  fst (optional_subschemas CacheNone pos neg l pset base required opts c1)
+  = fst (optional_subschemas CacheNone pos neg l pset base required opts c2).
+Proof.
+  induction opts as [|o r IH]; cbn [optional_subschemas]; [reflexivity|].
+  destruct (negb _ && pos && neg); cbn [fst].
+  - rewrite !combination_props_none_cache.
+    rewrite (combination_props_none_irrelevant pset _ [] c1 c2). rewrite IH. reflexivity.
+  - exact IH.
+Qed.
+
+Lemma optional_subschemas_none_in {S} pos neg l (pset : list (dparam S)) base required opts c ss :
+  In ss (fst (optional_subschemas CacheNone pos neg l pset base required opts c)) ->
+  ss_loc ss = l /\ ss_required ss = required /\
+  forall n s, In (n, s) (ss_props ss) -> exists p, In p pset /\ dp_name p = n /\ dp_schema p = s.
+Proof.
+  induction opts as [|o r IH]; cbn [optional_subschemas]; [intros []|].
+  destruct (negb _ && pos && neg); cbn [fst].
+  - rewrite combination_props_none_cache. intros [H|H].
+    + subst ss. cbn [ss_loc ss_required ss_props]. repeat split.
+      intros n s Hin. destruct (combination_props_none_in _ _ _ _ _ _ Hin) as [[]|Hp]. exact Hp.
+    + exact (IH H).
+  - exact IH.
+Qed.
+
+Definition declared_here {S} (params : list (dparam S)) (l : loc) (n : N) (p : dparam S) : Prop :=
+  In p params /\ dp_loc p = l /\ dp_name p = n.
+
+Lemma in_pset {S} (params : list (dparam S)) l p : In p (filter (at_loc l) params) -> In p params /\ dp_loc p = l.
+Proof.
+  intros H. apply filter_In in H. destruct H as [H1 H2]. split; [exact H1|].
+  unfold at_loc in H2. symmetry. apply loc_eqb_eq. exact H2.
+Qed.
+
+Lemma combo_subschemas_for_none_in {S} pos neg (params : list (dparam S)) l c ss :
+  In ss (fst (combo_subschemas_for CacheNone pos neg params l c)) ->
+  ss_loc ss = l
+  /\ (forall n s, In (n, s) (ss_props ss) -> exists p, declared_here params l n p /\ dp_schema p = s)
+  /\ (forall n, In n (ss_required ss) -> exists p, declared_here params l n p /\ dp_required p = true).
+Proof.
+  unfold combo_subschemas_for.
+  set (pset := filter (at_loc l) params).
+  assert (Hreq : forall n, In n (dedup (map dp_name (filter dp_required pset))) ->
+                           exists p, declared_here params l n p /\ dp_required p = true).
+  { intros n Hn. apply dedup_in in Hn. apply in_map_iff in Hn. destruct Hn as (p & Hname & Hp).
+    apply filter_In in Hp. destruct Hp as [Hp Hr]. destruct (in_pset _ _ _ Hp) as [Hin Hl].
+    exists p. split; [split; [exact Hin|split; assumption]|exact Hr]. }
+  assert (Hprops : forall n s, (exists p, In p pset /\ dp_name p = n /\ dp_schema p = s) ->
+                               exists p, declared_here params l n p /\ dp_schema p = s).
+  { intros n s (p & Hp & Hn & Hs). destruct (in_pset _ _ _ Hp) as [Hin Hl].
+    exists p. split; [split; [exact Hin|split; assumption]|exact Hs]. }
+  destruct pset as [|p0 pr] eqn:Epset; [intros []|].
+  rewrite <- Epset in *. clear Epset.
+  set (required := dedup (map dp_name (filter dp_required pset))) in *.
+  cbn [fst snd]. intros Hin. apply in_app_or in Hin. destruct Hin as [Hin|Hin].
+  - destruct required as [|r0 rr] eqn:Ereq; [destruct Hin|]. rewrite <- Ereq in *.
+    destruct (negb _ && neg); [|destruct Hin]. cbn [fst] in Hin. destruct Hin as [Hin|[]]. subst ss.
+    cbn [ss_loc ss_props ss_required]. split; [reflexivity|]. split.
+    + intros n s H. apply Hprops. destruct (combination_props_none_in _ _ _ _ _ _ H) as [[]|Hp]. exact Hp.
+    + exact Hreq.
+  - apply optional_subschemas_none_in in Hin. destruct Hin as (Hl & Hr & Hp). split; [exact Hl|]. split.
+    + intros n s H. apply Hprops. exact (Hp n s H).
+    + rewrite Hr. exact Hreq.
+Qed.
+
+Lemma combo_subschemas_for_none_cache {S} pos neg (params : list (dparam S)) l c :
+  snd (combo_subschemas_for CacheNone pos neg params l c) = c.
+Proof.
+  unfold combo_subschemas_for. destruct (filter (at_loc l) params) as [|p0 pr]; [reflexivity|].
+  cbn [snd]. rewrite optional_subschemas_none_cache.
+  destruct (dedup (map dp_name (filter dp_required (p0 :: pr)))); [reflexivity|].
+  destruct (negb _ && neg); [|reflexivity]. cbn [snd]. apply combination_props_none_cache.
+Qed.
+
+(* every subschema of the plan belongs to one of the three locations and is built from the
+   parameters declared AT that location only *)
+Lemma combo_plan_declared {S} pos neg (params : list (dparam S)) ss :
+  In ss (combo_plan CacheNone pos neg params) ->
+  (ss_loc ss = LQuery \/ ss_loc ss = LHeader \/ ss_loc ss = LCookie)
+  /\ (forall n s, In (n, s) (ss_props ss) -> exists p, declared_here params (ss_loc ss) n p /\ dp_schema p = s)
+  /\ (forall n, In n (ss_required ss) -> exists p, declared_here params (ss_loc ss) n p /\ dp_required p = true).
+Proof.
+  unfold combo_plan. intros Hin.
+  apply in_app_or in Hin. destruct Hin as [Hin|Hin]; [|apply in_app_or in Hin; destruct Hin as [Hin|Hin]];
+    apply combo_subschemas_for_none_in in Hin; destruct Hin as (Hl & Hp & Hr); rewrite Hl; (split; [tauto|split; assumption]).
+Qed.
+
+(* the block of location l is a function of the parameters declared at l: whatever is declared at
+   the other locations (same names included) and whatever an earlier block left behind *)
+Lemma combo_block_location_independent {S} pos neg (ps1 ps2 : list (dparam S)) l c1 c2 :
+  filter (at_loc l) ps1 = filter (at_loc l) ps2 ->
+  fst (combo_subschemas_for CacheNone pos neg ps1 l c1) = fst (combo_subschemas_for CacheNone pos neg ps2 l c2).
+Proof.
+  intros H. unfold combo_subschemas_for. rewrite H.
+  destruct (filter (at_loc l) ps2) as [|p0 pr]; [reflexivity|].
+  cbn [fst snd].
+  destruct (dedup (map dp_name (filter dp_required (p0 :: pr)))) as [|r0 rr] eqn:Ereq.
+  - cbn [fst snd]. apply optional_subschemas_none_irrelevant.
+  - destruct (negb _ && neg); cbn [fst snd].
+    + rewrite !combination_props_none_cache.
+      rewrite (combination_props_none_irrelevant _ _ [] c1 c2).
+      f_equal. apply optional_subschemas_none_irrelevant.
+    + apply optional_subschemas_none_irrelevant.
+Qed.
+
+Lemma filter_at_loc_idem {S} (params : list (dparam S)) l :
+  filter (at_loc l) (filter (at_loc l) params) = filter (at_loc l) params.
+Proof.
+  induction params as [|p r IH]; cbn [filter]; [reflexivity|].
+  destruct (at_loc l p) eqn:E; cbn [filter]; [rewrite E, IH; reflexivity|exact IH].
+Qed.
+
+Lemma combo_plan_by_location {S} pos neg (params : list (dparam S)) :
+  combo_plan CacheNone pos neg params
+  = fst (combo_subschemas_for CacheNone pos neg (filter (at_loc LQuery) params) LQuery [])
+    ++ fst (combo_subschemas_for CacheNone pos neg (filter (at_loc LHeader) params) LHeader [])
+    ++ fst (combo_subschemas_for CacheNone pos neg (filter (at_loc LCookie) params) LCookie []).
+Proof.
+  unfold combo_plan. rewrite !combo_subschemas_for_none_cache.
+  f_equal; [|f_equal]; apply combo_block_location_independent; symmetry; apply filter_at_loc_idem.
+Qed.
+
+(* ---- a cache keyed by the full identity (location, name) changes nothing ---- *)
+Definition cache_ok {S} (params : list (dparam S)) (c : list (ckey * S)) : Prop :=
+  forall l n s, cache_get (Some l, n) c = Some s ->
+  forall p, In p params -> dp_loc p = l -> dp_name p = n -> dp_schema p = s.
+
+Lemma distinct_identities_functional {S} (params : list (dparam S)) :
+  distinct_identities params = true ->
+  forall p q, In p params -> In q params -> dp_loc p = dp_loc q -> dp_name p = dp_name q -> p = q.
+Proof.
+  induction params as [|a r IH]; cbn [distinct_identities]; [intros _ p q []|].
+  intros H. apply andb_true_iff in H. destruct H as [Ha Hr]. apply negb_true_iff in Ha.
+  assert (Hno : forall q, In q r -> dp_loc a = dp_loc q -> dp_name a = dp_name q -> False).
+  { intros q Hq Hl Hn. assert (existsb (fun q => loc_eqb (dp_loc a) (dp_loc q) && N.eqb (dp_name a) (dp_name q)) r = true) as E.
+    { apply existsb_exists. exists q. split; [exact Hq|]. rewrite Hl, Hn, loc_eqb_refl, N.eqb_refl. reflexivity. }
+    congruence. }
+  intros p q [Hp|Hp] [Hq|Hq] Hl Hn.
+  - congruence.
+  - subst a. exfalso. exact (Hno q Hq Hl Hn).
+  - subst a. exfalso. symmetry in Hl, Hn. exact (Hno p Hp Hl Hn).
+  - exact (IH Hr p q Hp Hq Hl Hn).
+Qed.
+
+Lemma schema_through_locname {S} (params : list (dparam S)) c p :
+  distinct_identities params = true -> cache_ok params c -> In p params ->
+  fst (schema_through CacheByLocName c p) = dp_schema p /\ cache_ok params (snd (schema_through CacheByLocName c p)).
+Proof.
+  intros Hd Hok Hp. unfold schema_through. cbn [cache_key].
+  destruct (cache_get (Some (dp_loc p), dp_name p) c) as [s|] eqn:E; cbn [fst snd].
+  - split; [|exact Hok]. symmetry. exact (Hok _ _ _ E p Hp eq_refl eq_refl).
+  - split; [reflexivity|]. intros l n s Hget q Hq Hl Hn. cbn [cache_get] in Hget.
+    destruct (ckey_eqb (Some l, n) (Some (dp_loc p), dp_name p)) eqn:Ek.
+    + inversion Hget. subst s. unfold ckey_eqb in Ek. cbn [fst snd] in Ek. apply andb_true_iff in Ek. destruct Ek as [E1 E2].
+      apply loc_eqb_eq in E1. apply N.eqb_eq in E2.
+      assert (q = p) as -> by (apply (distinct_identities_functional params Hd); congruence). reflexivity.
+    + exact (Hok _ _ _ Hget q Hq Hl Hn).
+Qed.
+
+Lemma combination_props_locname {S} (params pset : list (dparam S)) comb acc c c0 :
+  distinct_identities params = true -> cache_ok params c -> (forall p, In p pset -> In p params) ->
+  fst (combination_props CacheByLocName pset comb acc c) = fst (combination_props CacheNone pset comb acc c0)
+  /\ cache_ok params (snd (combination_props CacheByLocName pset comb acc c)).
+Proof.
+  intros Hd. revert acc c. induction pset as [|p r IH]; intros acc c Hok Hsub; cbn [combination_props].
+  - split; [reflexivity|exact Hok].
+  - destruct (mem_name (dp_name p) comb).
+    + destruct (schema_through_locname params c p Hd Hok (Hsub p (or_introl eq_refl))) as [Hs Hok'].
+      rewrite schema_through_none. cbn [fst snd]. rewrite Hs.
+      apply IH; [exact Hok'|]. intros q Hq. apply Hsub. right. exact Hq.
+    + apply IH; [exact Hok|]. intros q Hq. apply Hsub. right. exact Hq.
+Qed.
+
+Lemma optional_subschemas_locname {S} (params pset : list (dparam S)) pos neg l base required opts c c0 :
+  distinct_identities params = true -> cache_ok params c -> (forall p, In p pset -> In p params) ->
+  fst (optional_subschemas CacheByLocName pos neg l pset base required opts c)
+  = fst (optional_subschemas CacheNone pos neg l pset base required opts c0)
+  /\ cache_ok params (snd (optional_subschemas CacheByLocName pos neg l pset base required opts c)).
+Proof.
+  intros Hd. revert c. induction opts as [|o r IH]; intros c Hok Hsub; cbn [optional_subschemas].
+  - split; [reflexivity|exact Hok].
+  - destruct (negb _ && pos && neg); cbn [fst snd].
+    + destruct (combination_props_locname params pset (filter (fun n => mem_name n required || N.eqb n o) base) [] c c0 Hd Hok Hsub) as [Hf Hok'].
+      rewrite combination_props_none_cache.
+      destruct (IH _ Hok' Hsub) as [Hf2 Hok2]. rewrite Hf, Hf2. split; [reflexivity|exact Hok2].
+    + exact (IH _ Hok Hsub).
+Qed.
+
+Lemma combo_subschemas_for_locname {S} (params : list (dparam S)) pos neg l c c0 :
+  distinct_identities params = true -> cache_ok params c ->
+  fst (combo_subschemas_for CacheByLocName pos neg params l c) = fst (combo_subschemas_for CacheNone pos neg params l c0)
+  /\ cache_ok params (snd (combo_subschemas_for CacheByLocName pos neg params l c)).
+Proof.
+  intros Hd Hok. unfold combo_subschemas_for.
+  assert (Hsub : forall p, In p (filter (at_loc l) params) -> In p params) by (intros p Hp; apply filter_In in Hp; tauto).
+  destruct (filter (at_loc l) params) as [|p0 pr] eqn:Epset; [split; [reflexivity|exact Hok]|].
+  rewrite <- Epset in *. clear Epset. cbn [fst snd].
+  set (pset := filter (at_loc l) params) in *.
+  set (base := dedup (map dp_name (filter dp_in_template pset))).
+  set (required := dedup (map dp_name (filter dp_required pset))).
+  destruct required as [|r0 rr] eqn:Ereq.
+  - cbn [fst snd]. apply optional_subschemas_locname; assumption.
+  - rewrite <- Ereq. destruct (negb _ && neg); cbn [fst snd].
+    + destruct (combination_props_locname params pset (filter (fun n => mem_name n required) base) [] c c0 Hd Hok Hsub) as [Hf Hok'].
+      rewrite combination_props_none_cache.
+      destruct (optional_subschemas_locname params pset pos neg l base required
+                  (sort_names (filter (fun n => negb (mem_name n required)) (dedup (map dp_name pset))))
+                  _ c0 Hd Hok' Hsub) as [Hf2 Hok2].
+      rewrite Hf, Hf2. split; [reflexivity|exact Hok2].
+    + apply optional_subschemas_locname; assumption.
+Qed.
+
+Lemma cache_ok_empty {S} (params : list (dparam S)) : cache_ok params [].
+Proof. intros l n s H. discriminate H. Qed.
+
+Lemma combo_plan_locname_safe {S} pos neg (params : list (dparam S)) :
+  distinct_identities params = true ->
+  combo_plan CacheByLocName pos neg params = combo_plan CacheNone pos neg params.
+Proof.
+  intros Hd. unfold combo_plan.
+  destruct (combo_subschemas_for_locname params pos neg LQuery [] [] Hd (cache_ok_empty params)) as [H1 K1].
+  destruct (combo_subschemas_for_locname params pos neg LHeader _ (snd (combo_subschemas_for CacheNone pos neg params LQuery [])) Hd K1) as [H2 K2].
+  destruct (combo_subschemas_for_locname params pos neg LCookie _ (snd (combo_subschemas_for CacheNone pos neg params LHeader (snd (combo_subschemas_for CacheNone pos neg params LQuery [])))) Hd K2) as [H3 _].
+  rewrite H1, H2, H3. reflexivity.
+Qed.
+
+(* ---- value level: the numeric negatives of a combination case violate the schema DECLARED at
+   (location of the block, name) ---- *)
+Lemma combo_negative_values_violate_declared {S} (keys_of : S -> list nkey) pos neg (params : list (dparam S)) ss name v d k :
+  forallb (fun p => forallb numeric_key (keys_of (dp_schema p))) params = true ->
+  In ss (combo_plan CacheNone pos neg params) ->
+  In (name, (Some v, d, k)) (combo_negative_values keys_of ss) ->
+  exists p, declared_here params (ss_loc ss) name p
+            /\ In k (keys_of (dp_schema p)) /\ violates k v = true /\ conforms (keys_of (dp_schema p)) v = false.
+Proof.
+  intros Hreg Hss Hin. destruct (combo_plan_declared _ _ _ _ Hss) as (_ & Hprops & _).
+  unfold combo_negative_values in Hin. apply in_flat_map in Hin. destruct Hin as ([n s] & Hns & Hit).
+  cbn [fst snd] in Hit. apply in_map_iff in Hit. destruct Hit as (it & Heq & Hit). inversion Heq. subst n it.
+  destruct (Hprops _ _ Hns) as (p & Hdecl & Hs). exists p. split; [exact Hdecl|]. rewrite Hs.
+  assert (Hnum : forallb numeric_key (keys_of s) = true).
+  { rewrite forallb_forall in Hreg. destruct Hdecl as (Hp & _). specialize (Hreg p Hp). rewrite Hs in Hreg. exact Hreg. }
+  destruct (negative_numbers_invalid_partial _ _ _ _ _ Hnum Hit) as [Hk Hv]. split; [exact Hk|]. split; [exact Hv|].
+  unfold conforms. apply not_true_is_false. intros Hall. rewrite forallb_forall in Hall. specialize (Hall k Hk). rewrite Hv in Hall. discriminate Hall.
+Qed.
+
+(* ---- the sentinel: the cache keyed by the name alone ---- *)
+(* GET /items: id in query (required, integer, maximum 10), q and r in query (optional),
+   id in header (required, integer, no bound), t in header (optional): names 0 = id, 1 = q, 2 = r, 3 = t *)
+Definition w_shared : list (dparam (list nkey)) :=
+  [ {| dp_loc := LHeader; dp_name := 0%N; dp_required := true;  dp_in_template := true; dp_schema := [] |};
+    {| dp_loc := LHeader; dp_name := 3%N; dp_required := false; dp_in_template := true; dp_schema := [] |};
+    {| dp_loc := LQuery;  dp_name := 0%N; dp_required := true;  dp_in_template := true; dp_schema := [KMaximum 10] |};
+    {| dp_loc := LQuery;  dp_name := 1%N; dp_required := false; dp_in_template := true; dp_schema := [KMinimum 1] |};
+    {| dp_loc := LQuery;  dp_name := 2%N; dp_required := false; dp_in_template := true; dp_schema := [] |} ].
+Definition w_shared_header_block : subschema (list nkey) :=
+  {| ss_loc := LHeader; ss_tag := OnlyRequired; ss_props := [(0%N, [KMaximum 10])]; ss_required := [0%N] |}.
+
+Lemma combo_cache_by_name_refuted :
+  distinct_identities w_shared = true
+  /\ In w_shared_header_block (combo_plan CacheByName true true w_shared)
+  /\ In (0%N, [KMaximum 10]) (ss_props w_shared_header_block)
+  /\ (forall p, declared_here w_shared (ss_loc w_shared_header_block) 0%N p -> dp_schema p <> [KMaximum 10])
+  /\ In (0%N, (Some (PInt 11), NGreater, KMaximum 10)) (combo_negative_values (fun s => s) w_shared_header_block)
+  /\ (forall p, declared_here w_shared (ss_loc w_shared_header_block) 0%N p -> conforms (dp_schema p) (PInt 11) = true)
+  /\ ~ In w_shared_header_block (combo_plan CacheNone true true w_shared).
+Proof.
+  split; [reflexivity|]. split; [vm_compute; tauto|]. split; [left; reflexivity|]. split.
+  - intros p (Hin & Hl & Hn). cbn in Hin.
+    destruct Hin as [H|[H|[H|[H|[H|[]]]]]]; subst p; cbn in Hl, Hn; try discriminate; cbn; discriminate.
+  - split; [vm_compute; tauto|]. split.
+    + intros p (Hin & Hl & Hn). cbn in Hin.
+      destruct Hin as [H|[H|[H|[H|[H|[]]]]]]; subst p; cbn in Hl, Hn; try discriminate; reflexivity.
+    + vm_compute. intros H. repeat (destruct H as [H|H]; [discriminate H|]). exact H.
+Qed.
+
+(* non-vacuity: with the policy of the code the same operation has four subschemas (query: only required,
+   required + q, required + r; header: only required) and the header block carries the header schema *)
+Lemma combo_plan_nonvacuous :
+  map (fun ss => (ss_loc ss, ss_tag ss, ss_props ss, ss_required ss)) (combo_plan CacheNone true true w_shared)
+  = [ (LQuery, OnlyRequired, [(0%N, [KMaximum 10])], [0%N]);
+      (LQuery, OneOptional 1%N, [(0%N, [KMaximum 10]); (1%N, [KMinimum 1])], [0%N]);
+      (LQuery, OneOptional 2%N, [(0%N, [KMaximum 10]); (2%N, [])], [0%N]);
+      (LHeader, OnlyRequired, [(0%N, [])], [0%N]) ]
+  /\ combo_plan CacheByLocName true true w_shared = combo_plan CacheNone true true w_shared
+  /\ forallb (fun p => forallb numeric_key (dp_schema p)) w_shared = true
+  /\ flat_map (combo_negative_values (fun s => s)) (combo_plan CacheNone true true w_shared)
+     = [ (0%N, (Some (PInt 11), NGreater, KMaximum 10));
+         (0%N, (Some (PInt 11), NGreater, KMaximum 10)); (1%N, (Some (PInt 0), NSmaller, KMinimum 1));
+         (0%N, (Some (PInt 11), NGreater, KMaximum 10)) ].
+Proof. vm_compute. repeat split. Qed.
